@@ -350,6 +350,16 @@ class StmtMixin:
                 if out in ("next", "continue"):
                     ghosts(q, it["advance"](pos, elem, q))
                     self.check_clauses(tag, "preserved", invs, q, pre_env=pre_env)
+                    if isinstance(s.iter, (ast.Subscript, ast.Attribute)) and not isinstance(it["value"].ty, T.Map):
+                        # Python iterates the live container: the body must leave the iterated list as it was
+                        try:
+                            saved_pending, self.pending = self.pending, []
+                            cur_it = self.ev(s.iter, q)
+                            self.pending = saved_pending
+                            if cur_it.ty == it["value"].ty and cur_it.ty.scalar:
+                                self.oblige(f"loop{ordinal}:iter-stable", "iterated container unchanged by the body", q, cur_it.t == it["value"].t)
+                        except Unsupported:
+                            pass
                     # vacuity canary for the loop body: the hypotheses at the end of an iteration must not be contradictory
                     from .core import Obligation
                     self.obls.append(Obligation(self.cur.qual, "canary", f"loop{ordinal}-body-feasible", 0, list(q.hyps), z3.BoolVal(False),
